@@ -239,4 +239,6 @@ def run_check(chk, repo, tier):
 
 
 def run(chk, repo, tier):   # noqa: F811  (entry point; shadows rules.run deliberately)
+    from .common import no_hidden_state
+    no_hidden_state(chk, repo, 'C01')
     run_check(chk, repo, tier)
